@@ -1,4 +1,4 @@
 (* Extraction of the data-merge algebra (shared by C05, C06, C15). ExtrOcamlBasic only. *)
 From Coq Require Import Extraction ExtrOcamlBasic.
-From NV Require Import Merge.Algebra.
-Extraction "merge_model.ml" elab merge export wf pcmp_src pcmp pnorm.
+From NV Require Import Merge.Algebra Merge.ElabWf.
+Extraction "merge_model.ml" elab merge export wf wfE pcmp_src pcmp pnorm.
